@@ -12,7 +12,7 @@ RUNS = {"quick": 2500, "thorough": 40000}
 RULE = ("seeded scenarios: 1-2 scripted clients send 2-12 requests (7 methods x CON/NON, partly concurrent) to a real "
         "server hosting a zoo of handlers generated per run: return with / without code, raise every "
         "ConstructionRenderableError subclass with and without custom text, raise arbitrary exceptions carrying a secret "
-        "marker, return None/str/int/tuple, RenderableError whose to_message raises or returns None, each completing "
+        "marker (also ones that have a to_message method without being RenderableError: ResponseWrappingError), return None/str/int/tuple, RenderableError whose to_message raises or returns None, each completing "
         "before or after EMPTY_ACK_DELAY; unknown paths, unimplemented methods, a context without a site; "
         "a handler that waits on a future nothing else references strongly while the garbage collector (off "
         "otherwise) runs at scenario-chosen instants; server->client loss/dup/delay so separate responses get retransmitted, client-side repeats of CON requests. "
@@ -25,7 +25,7 @@ COMPONENTS_STUB = ["UDP socket (SimSocket)", "scripted clients (reference codec)
 ASSUMPTIONS = ["a renderable error's own code and message are its class/instance attributes `code` and `message`",
                "'bare 5.00' is taken to mean code 5.00 with an empty payload"]
 EXPECTED_PROBES = ["renderable_error", "generic_exception", "wrong_return_type", "failing_renderer", "slow_failure",
-                   "default_code", "not_found", "method_not_allowed", "not_a_server", "concurrent_neighbours", "gc_while_handler_waits"]
+                   "default_code", "not_found", "method_not_allowed", "not_a_server", "concurrent_neighbours", "gc_while_handler_waits", "non_renderable_with_to_message"]
 
 SECRET = "SECRET-9f3a-MARKER"
 METHODS = {"GET": 1, "POST": 2, "PUT": 3, "DELETE": 4, "FETCH": 5, "PATCH": 6, "IPATCH": 7}
@@ -37,14 +37,15 @@ RENDERABLE = ['BadGateway', 'BadOption', 'BadRequest', 'Conflict', 'Construction
 RET_CODES = [rc.CONTENT, rc.CREATED, rc.CHANGED, rc.DELETED, rc.VALID, rc.BAD_REQUEST, rc.code(5, 3), rc.code(4, 29)]
 KINDS = ["ret_code", "ret_nocode", "raise_renderable", "raise_renderable_text", "raise_generic", "ret_none", "ret_str",
          "ret_int", "ret_tuple", "renderer_raises", "renderer_none", "missing", "get_only", "ret_unserializable",
-         "raw_render_nonmessage", "wait_weak"]
+         "raw_render_nonmessage", "wait_weak", "raise_wrapping", "raise_ducky"]
 
 
 def gen_req(r, i):
     kind = r.weighted([(3, "ret_code"), (3, "ret_nocode"), (3, "raise_renderable"), (2, "raise_renderable_text"),
                        (3, "raise_generic"), (1, "ret_none"), (1, "ret_str"), (1, "ret_int"), (1, "ret_tuple"),
                        (2, "renderer_raises"), (1, "renderer_none"), (2, "missing"), (2, "get_only"),
-                       (2, "ret_unserializable"), (1, "raw_render_nonmessage"), (2, "wait_weak")])
+                       (2, "ret_unserializable"), (1, "raw_render_nonmessage"), (2, "wait_weak"),
+                       (2, "raise_wrapping"), (1, "raise_ducky")])
     q = {"id": i, "kind": kind, "method": r.choice(list(METHODS)), "con": r.chance(0.7), "slow": r.chance(0.35),
          "client": 0}
     if kind == "ret_code":
@@ -162,6 +163,12 @@ def execute(sim, scn):
                 raise ValueError(SECRET + " renderer")
             return None
 
+    class Ducky(Exception):
+        """no RenderableError, although it quacks like one"""
+
+        def to_message(self):
+            return Message(code=Code(rc.CONTENT), payload=(SECRET + " ducky").encode())
+
     invocations = []
     import gc
     import weakref
@@ -230,6 +237,12 @@ def execute(sim, scn):
                 waiters[rid] = weakref.ref(fut)
                 await fut
                 return Message(payload=b"P%d" % rid)
+            if k == "raise_wrapping":
+                # what a handler gets from `await ctx.request(...).response_raising` when ITS backend answered with an
+                # error: an exception of the library that can produce a message but is, on purpose, not renderable
+                raise error.ResponseWrappingError(Message(code=Code(rc.FORBIDDEN), payload=(SECRET + " backend").encode()))
+            if k == "raise_ducky":
+                raise Ducky()
             if k == "renderer_raises":
                 raise BadRenderer("raise")
             if k == "renderer_none":
@@ -370,7 +383,8 @@ def execute(sim, scn):
             exp_payload = inst.message.encode("utf8")
         else:
             sim.probe({"raise_generic": "generic_exception", "renderer_raises": "failing_renderer",
-                       "renderer_none": "failing_renderer"}.get(k, "wrong_return_type"))
+                       "renderer_none": "failing_renderer", "raise_wrapping": "non_renderable_with_to_message",
+                       "raise_ducky": "non_renderable_with_to_message"}.get(k, "wrong_return_type"))
             if q["slow"]:
                 sim.probe("slow_failure")
             exp_code, exp_payload = rc.INTERNAL_SERVER_ERROR, b""
